@@ -814,6 +814,26 @@ def rule_wildcard(P) -> RuleResult:
                 res.fail(f'{ci.fq}.wildcard_columns', 'wildcard:source', 'the wildcard list is not derived from the table columns', loc(meth))
         else:
             raise AnalysisError(f'{ci.fq}: wildcard_columns not found')
+    # subquery tables and user tables (the base Table's property): `*` is every column, in order - a subquery column may
+    # well be called `meta`
+    from ..symex import Sym as _S, SList as _SL, T as _T, Engine as _E, Exec as _X
+    for owner_fq, label in (('beanquery.query_compile:SubqueryTable', 'a subquery table'), ('beanquery.tables:Table', 'a user table')):
+        mod, cname = owner_fq.split(':')
+        ci = P.module(mod).classes.get(cname)
+        if ci is None:
+            raise AnalysisError(f'anchor vanished: {owner_fq}')
+        meth = P.find_method(ci, 'wildcard_columns')
+        if not isinstance(meth, FuncInfo):
+            raise AnalysisError(f'{owner_fq}: wildcard_columns is not a property')
+        TBL = _S('TABLE')
+        cols_model = _SL([('a', _S('COL_a')), ('meta', _S('COL_meta')), ('b', _S('COL_b'))], kind='dict')
+        for p_ in _E(P, on_attr=lambda b, a, ex: cols_model if (b, a) == (TBL, 'columns') else NotImplemented).paths(meth, {'self': TBL}):
+            names = _X(_E(P), []).iterate(p_.value)
+            if names != ['a', 'meta', 'b']:
+                res.fail(f'{ci.fq}.wildcard_columns', 'wildcard:subquery', f'`*` on {label} with columns a, meta, b expands to '
+                         f'{names if names is not None else p_.value!r}: every column of the table must be listed, in order', loc(meth))
+            else:
+                res.ok({'table': label, 'wildcard': 'every column, in order'})
     # expansion site
     ct = _method(P, '_compile_targets')
     if 'self.table.wildcard_columns' not in unparse(ct.node):
@@ -893,7 +913,20 @@ def rule_partial(P) -> RuleResult:
             rx = re.compile(mm.group(1))
             f, pool = conv[key]
             if key == 'strptime':
-                fmt = ast.literal_eval(c.args[1]) if len(c.args) > 1 and isinstance(c.args[1], ast.Constant) else None
+                fmt = None
+                if len(c.args) > 1:
+                    a1 = c.args[1]
+                    if isinstance(a1, ast.Name) and a1.id in pm.assigns:          # a module-level constant
+                        a1 = pm.assigns[a1.id]
+                    elif isinstance(a1, ast.Attribute) and isinstance(a1.value, ast.Name) and a1.value.id in ('self', 'cls') and a1.attr in sem.attrs:
+                        a1 = sem.attrs[a1.attr]                                     # a class-level constant
+                    elif isinstance(a1, ast.Name):
+                        defs = [x for x in ast.walk(fi.node) if isinstance(x, ast.Assign) and len(x.targets) == 1
+                                and isinstance(x.targets[0], ast.Name) and x.targets[0].id == a1.id]
+                        if len(defs) == 1:
+                            a1 = defs[0].value
+                    if isinstance(a1, ast.Constant) and isinstance(a1.value, str):
+                        fmt = a1.value
                 if fmt is None:
                     raise AnalysisError(f'{fi.fq}: strptime format is not a constant')
                 f = lambda s, _fmt=fmt: _dt.datetime.strptime(s, _fmt)
